@@ -54,24 +54,35 @@ def tails(s: list[Any]) -> list[Any]:
     return out
 
 
+def ends_detached(branch: Any) -> bool:
+    items = branch[1]
+    return bool(items) and items[-1][0] == "detach"
+
+
 def loops_with_context(d: Any) -> list[tuple[Any, bool, bool]]:
     """every loop of the definition with what follows it: (loop, terminal, parallel)
-    terminal: nothing follows the loop up to the end of the job (it is in tail position of the top-level sequence,
-              through forks of any kind);
-    parallel: since the last point where something followed, the loop sits in tail position of a branch of an
-              AND/OR fork (its exit joins parallel branches).  Inside a loop body both are reset."""
+    terminal: nothing follows the loop up to the end of the job (tail position of the top-level sequence, through
+              forks of any kind and through the tails of enclosing loop bodies);
+    parallel: since the last point where something followed, the loop sits in tail position of a branch of an AND
+              fork that has another branch which does not end in detach (its exit joins a parallel branch: the
+              merge event is never preceded by the loop's events alone).  Both are inherited by a loop in tail
+              position of a loop body."""
     out: list[tuple[Any, bool, bool]] = []
 
     def seq(items: list[Any], terminal: bool, parallel: bool) -> None:
+        if items and items[-1][0] == "detach":
+            # the branch is cut here: nothing follows its last real item, and it joins nothing
+            items, terminal, parallel = items[:-1], True, False
         for k, it in enumerate(items):
             last = k == len(items) - 1
             t, p = (terminal, parallel) if last else (False, False)
             if it[0] == "fork":
                 for b in it[2]:
-                    seq(b[1], t, p or it[1] in ("AND", "OR"))
+                    joins = it[1] == "AND" and any(o is not b and not ends_detached(o) for o in it[2])
+                    seq(b[1], t, p or joins)
             elif it[0] == "loop":
                 out.append((it, t, p))
-                seq(it[1][1], False, False)
+                seq(it[1][1], t, p)
 
     seq(d[1], True, False)
     return out
@@ -103,6 +114,8 @@ def build_cases(ctx: Ctx, n_random: int, sizes: list[int], with_corpus: bool, mu
     defs: list[dict[str, Any]] = []
     for d in pvlib.enumerate_small():
         defs.append({"kind": "small", "blk": d})
+    for d in pvlib.enumerate_loop_tails():
+        defs.append({"kind": "loop_tail", "blk": d})
     for _ in range(n_random):
         defs.append({"kind": "random", "blk": pvlib.gen_definition(r, r.choice(sizes))})
     if multi_start:
